@@ -76,6 +76,7 @@ class Engine(object):
     self.stopping = False
     self.time_jumps = 0
     self._guard = 0
+    sim.engine = self
 
   # -- thread creation ---------------------------------------------------
   def spawn(self, target, name=None, facade=None):
